@@ -301,6 +301,18 @@ def checks11 (env : Env) (key : Option String) (sc : UpdateScript) (g : G11) (w 
        | none => [])
     | _, _ => [])
 
+/-- C17 on the network log of an episode: a download event is sent once if the episode's update installed, and never
+    otherwise. (Judged on the real library's episodes only: the section machine carries no network actions, so the
+    theorem for this clause is the sequential one, `C17_holds`.) -/
+def episodeNetChecks (aOut : Option UpdateOut) (net : List NetAct) : Checks :=
+  let dls := net.filter fun a => match a with | .event e => e.kind == .download | _ => false
+  match aOut with
+  | some .installed =>
+    [(dls.length = 1, s!"C17: the episode's update installed a patch but {dls.length} download events were sent")]
+  | some _ =>
+    [(dls.isEmpty, "C17: a download event was sent although the episode's update did not install the patch")]
+  | none => []
+
 /-- Judge an episode: the first grant (index, message) whose checks fail. -/
 def judge11 (env : Env) (key : Option String) (sc : UpdateScript) :
     G11 → Nat → View → List (Who × List Ret × View) → Option (Nat × String)
